@@ -64,15 +64,53 @@ theorem mean_nan_witness :
 join, summaries removed with raw h5py, copied/compressed/condensed, exported with any filter, in
 any nesting), the reported minimum, maximum and mean of a file-based scalar feature are the
 NaN-ignoring minimum, maximum and mean of the feature's actual values. -/
-theorem reported_eq_data (h : Hist) (s : SDs) (hs : build .fixed h = some s) :
+theorem reported_eq_data (h : Hist) (ht : Trusted h) (s : SDs) (hs : build .fixed h = some s) :
     report s = truth s.data :=
-  report_of_good s (build_good h s hs)
+  report_of_good s (build_good h ht s hs)
+
+/-- **re-writing and exporting heal**: whatever a file contained before — foreign, with wrong
+stored summaries — a feature stored in replace mode or exported through dclab reports the true
+summaries (no precondition) -/
+theorem export_and_replace_heal (h : Hist) (mask : List Bool) (data : List Val) (s : SDs)
+    (hs : build .fixed (.exported h mask) = some s ∨ build .fixed (.rewrite h data) = some s) :
+    report s = truth s.data := by
+  rcases hs with hs | hs
+  · exact reported_eq_data (.exported h mask) trivial s hs
+  · exact reported_eq_data (.rewrite h data) trivial s hs
+
+/-- **chunk-wise completion.** Summaries accumulated chunk by chunk over ANY partition of a
+dataset into (HDF5) chunks — running extrema, running mean weighted with the numbers of non-NaN
+values — are the summaries of the whole dataset.  (The copier may therefore complete missing
+summaries chunk by chunk, but only with these weights; see the witness below.) -/
+theorem completion_any_partition (chunks : List (List Val)) (last : List Val) (hne : last ≠ [])
+    (s : SDs) (h : appends .fixed (chunks ++ [last]) = some s) :
+    report s = truth (chunks ++ [last]).flatten := by
+  obtain ⟨⟨h1, h2, h3⟩, hd⟩ := appends_exact chunks last hne s h
+  unfold report truth
+  rw [h1, h2, h3, hd]
+  rfl
+
+/-- per-chunk means combined with the chunk *lengths* as weights are wrong as soon as NaNs are
+spread unevenly over the chunks: chunks `[1, nan]`, `[3, 5]` give `10/4`, the mean is `3` -/
+theorem chunk_length_weights_witness :
+    vdiv (vadd (vscale (nanmean [fin 1, nan]) 2) (vscale (nanmean [fin 3, fin 5]) 2)) 4
+      = fin (5 / 2) ∧ nanmean [fin 1, nan, fin 3, fin 5] = fin 3 := by
+  decide +kernel
+
+/-- a stored but wrong summary of a foreign file is reported as it is (the reader trusts stored
+attributes — by design; this is why `reported_eq_data` needs `Trusted`) and survives a copy -/
+theorem foreign_wrong_summary_reported_as_is :
+    let f : SDs := { data := [fin 1, fin 2], mn := some (fin 7), mx := none, mean := none }
+    (build .fixed (.copy (.foreign f))).map report =
+      some { mn := fin 7, mx := fin 2, mean := fin (3 / 2) } := by
+  decide +kernel
 
 /-- a copy always carries all three summaries, and they are true -/
-theorem copy_completes (h : Hist) (s : SDs) (hs : build .fixed (.copy h) = some s) : Exact s := by
+theorem copy_completes (h : Hist) (ht : Trusted h) (s : SDs)
+    (hs : build .fixed (.copy h) = some s) : Exact s := by
   simp only [build, Option.map_eq_some_iff] at hs
   obtain ⟨s0, h0, rfl⟩ := hs
-  obtain ⟨h1, h2, h3⟩ := build_good h s0 h0
+  obtain ⟨h1, h2, h3⟩ := build_good h ht s0 h0
   refine ⟨?_, ?_, ?_⟩
   · rcases h1 with h | h <;> simp [copyDs, h]
   · rcases h2 with h | h <;> simp [copyDs, h]
